@@ -2,12 +2,19 @@ SPECIFICATION MCSpec
 CONSTANTS
   Sub = {"s1", "s2", "s3"}
   Id = {"i1", "i2"}
-  Calls <- Calls_3same
+  Calls <- Calls_3
   ChanCap = 2
-  MaxTasks = 3
+  MaxTasks = 5
   Cancellable = {}
   RegisterFirst = TRUE
 INVARIANTS
-  ExportPrefixSel
+  TypeOK
+  MutexOK
+  OwnResult
+  NoPanic
+  NoLostWakeup
+PROPERTIES
+  EveryCallReturns
+  ResultWrittenOnce
 VIEW NoHistView
-CHECK_DEADLOCK FALSE
+CHECK_DEADLOCK TRUE
